@@ -80,6 +80,27 @@ def threaded_run(chk, prog, cfg, fn):
     chk.ob("R1.stop_postdominates", lp.path, "every return of the accept thread passes thread_pool.stop()", w is None and bool(stops),
            "the accept thread can end without stopping the pool", path=w, cfg=cfg)
 
+    # R6: nothing in the accept cycle can panic: a panic ends the accept thread (and closes the listener) without any signal, while run()
+    # keeps waiting — e.g. `stream.peer_addr().unwrap()` on a connection the client has already reset
+    from .. import panics as _pn
+    fwd_ = lp.reachable(nexts)
+    cyc_ = {n for n in fwd_ if any(x in lp.reachable([n]) for x in nexts)}
+    n_sites = 0
+    _allow = _pn.load_allow()
+    for st_ in _pn.sites_of(prog, lp):
+        if st_.block not in cyc_:
+            continue
+        n_sites += 1
+        how, why = _pn.try_discharge(prog, st_)
+        if how is None and st_.fingerprint in _allow:
+            from . import c03 as _c03
+            ok_, why2_ = _c03.check_allow_cond(prog, st_, _allow[st_.fingerprint], {lp.path})
+            if ok_:
+                how, why = "reviewed", f"{_allow[st_.fingerprint]['reason']} [{why2_}]"
+        chk.ob("R6.accept_never_panics", lp.path, f"{st_.kind} {core.short(st_.what)} in the accept cycle cannot fire", how is not None,
+               f"{st_.kind} {st_.what} can panic in the accept thread ({why or 'no discharge idiom applies'}): the listener is closed without a signal and run() never returns",
+               where=lp.where(st_.block), cfg=cfg)
+    chk.extra.setdefault("accept_cycle_panic_sites", {})[f"{cfg}/{tag}"] = n_sites
     # R6: nothing in the accept cycle (or in what it calls) can block other than accept itself, so the flag is looked at
     # as soon as the wake-up connection arrives, however many connections are queued or being handled
     fwd = lp.reachable(nexts)
